@@ -129,6 +129,25 @@ pub fn gen(seed: u64, thorough: bool, only: Option<u64>, out: &mut Out) {
       obs,
       verdict,
     );
+    // (2') the authentication tag altered in TWO bytes by the same mask (every byte of the tag must count, not a
+    // digest of them): never accepted
+    if expect_ok {
+      let mut tam: Vec<Vec<u8>> = sel.iter().map(|&i| enc[i].clone()).collect();
+      let l = tam[0].len();
+      let (i, j) = (l - 64 + r.below(32) as usize, l - 32 + r.below(32) as usize);
+      let mask = 1 + r.below(255) as u8;
+      tam[0][i] ^= mask;
+      tam[0][j] ^= mask;
+      let obs = match decode_all(&tam) {
+        Some(d) => recover_obs(&d),
+        None => "err".into(),
+      };
+      out.case(
+        format!("adss.recover {}", tam.iter().map(|b| hex(b)).collect::<Vec<_>>().join(" ")),
+        obs.clone(),
+        if obs == "err" { Ok(()) } else { Err(format!("a tag altered in bytes {} and {} by the same mask was accepted", i + 64 - l, j + 64 - l)) },
+      );
+    }
     // (3) re-sharing: a share made from the recovered commune combines with t-1 old ones
     if expect_ok {
       if let Ok(rc) = recover(&picked) {
